@@ -229,6 +229,34 @@ def run(tier, seed, t0):
             if sorted(want) != sorted(tab):
                 disagreements.append({'what': 'size table of %s lists %s, model needs %s' % (sexp(t), sorted(tab), sorted(want))})
             sizes[tid] = tab
+        # hint::cautious itself, compiled from its source file, on element sizes no test value can have
+        # (multiples of 2^32 bytes and their neighbours) against the model's `cautious`
+        hints = [0, 1, 2, 7, 100, 4095, 4096, 4097, 65536, 2 ** 31, 2 ** 32 - 1]
+        hres = run_cases(exe, ['hc%d\tcautious\t-\t-\t%d' % (i, h) for i, h in enumerate(hints)])
+        mlines, pairs = [], []
+        for i, h in enumerate(hints):
+            r = hres.get('hc%d' % i)
+            if not r or '=' not in r:
+                disagreements.append({'what': 'no answer from hint::cautious for hint %d: %r [%s]' % (h, r, cfg)})
+                continue
+            for j, item in enumerate(r.split(';')):
+                size, _, res = item.partition('=')
+                pairs.append(('m%d_%d' % (i, j), int(size), h, res))
+                mlines.append('m%d_%d\tcautious\t-\t-\t%s\t%d' % (i, j, size, h))
+        mres = run_cases(driver, mlines)
+        for cid, size, h, res in pairs:
+            stats['evaluations'] += 1
+            classes['cautious:' + res.split(' ')[0]] += 1
+            if mres.get(cid) != res:
+                disagreements.append({'what': 'hint::cautious::<T>(%d) with size_of::<T>() = %d: impl %s, model %s [%s]' % (h, size, res, mres.get(cid), cfg)})
+            ok = res.startswith('ok ') and 1 <= int(res[3:]) <= max(h, 1) and int(res[3:]) * size <= max(4096, size)
+            if not ok:
+                failures.append({'class': 'hint', 'key': 'cautious %d %d' % (size, h),
+                                 'what': 'hint::cautious::<T>(%d) for an element type of %d bytes gives %s: decoding any non-empty Vec<T> %s [%s]'
+                                         % (h, size, res, 'panics on a 4-byte input' if res == 'panic' else 'starts with a capacity outside 1..=max(hint,1) or above max(4096, size_of) bytes', cfg),
+                                 'size_of': size, 'hint': h, 'result': res, 'cfg': cfg,
+                                 'replay_cmd': "printf 'x\\tcautious\\t-\\t-\\t%d\\n' | %s" % (h, exe)})
+        stats['cautious_pairs'] = stats.get('cautious_pairs', 0) + len(pairs)
         # the model agrees that these types are in the family
         famres = run_cases(driver, [case_line('f%d' % tid, 'fam', tid, sexp(t)) for tid, t in fam.items()])
         for tid, t in fam.items():
